@@ -75,6 +75,7 @@ const keepFirst = 3
 // Case is the per-execution handle given to a property.
 type Case struct {
 	T        *rapid.T
+	TB       testing.TB // set instead of T in raw-byte fuzz targets
 	sub      *Sub
 	data     map[string]any
 	order    []string
@@ -259,6 +260,9 @@ func (c *Case) Failf(sig string, format string, args ...any) {
 		_ = os.WriteFile(filepath.Join(dir, c.sub.Prop+"-"+c.sub.Name+".json"), b, 0o644)
 	}
 	failMu.Unlock()
+	if c.T == nil {
+		c.TB.Fatalf("VIOLATION[%s/%s sig=%s]: %s\ncase: %s", c.sub.Prop, c.sub.Name, sig, msg, compact(c.snapshot()))
+	}
 	c.T.Fatalf("VIOLATION[%s/%s sig=%s]: %s\ncase: %s", c.sub.Prop, c.sub.Name, sig, msg, compact(c.snapshot()))
 }
 
@@ -289,6 +293,9 @@ func (c *Case) Guard(what string, f func()) {
 						break
 					}
 					c.finished = true
+					if c.T == nil {
+						c.TB.Skip("known panic: " + kp.Key)
+					}
 					c.T.Skip("known panic: " + kp.Key)
 				}
 			}
@@ -354,6 +361,37 @@ func Run(t *testing.T, prop, sub string, base int, rule string, body func(c *Cas
 		if !c.finished {
 			c.Done(false, "")
 		}
+	})
+}
+
+// Fuzz registers the same property body as a native fuzz target: the fuzzer's bytes drive
+// rapid's generators (rapid.MakeFuzz), so coverage feedback steers the structured
+// generators and the oracle stays inside the target. Statistics of fuzz workers are not
+// collected; a failure is saved by `go test -fuzz` under testdata/fuzz/<target>/.
+func Fuzz(f *testing.F, prop, sub string, body func(c *Case)) {
+	s := getSub(prop, "fuzz_"+sub)
+	f.Fuzz(rapid.MakeFuzz(func(rt *rapid.T) {
+		c := &Case{T: rt, sub: s, data: map[string]any{}}
+		body(c)
+		if !c.finished {
+			c.Done(false, "")
+		}
+	}))
+}
+
+// FuzzBytes registers a raw-byte fuzz target: the fuzzer's bytes are the input itself
+// (seeded with the given corpus) and body holds the oracle.
+func FuzzBytes(f *testing.F, prop, sub string, seeds []string, body func(c *Case, data []byte)) {
+	s := getSub(prop, "fuzzraw_"+sub)
+	for _, sd := range seeds {
+		f.Add([]byte(sd))
+	}
+	f.Fuzz(func(t *testing.T, data []byte) {
+		if len(data) > 4096 {
+			return
+		}
+		c := &Case{TB: t, sub: s, data: map[string]any{}}
+		body(c, data)
 	})
 }
 
